@@ -54,6 +54,8 @@ type memConn struct {
 	rtimer    *time.Timer
 	onClose   func() // called once, on the first Close
 	peer      *memConn
+	// onDeadline, if set, sees every SetDeadline call and may shorten it
+	onDeadline func(t time.Time) time.Time
 }
 
 // newMemPipe returns the two ends of an in-memory duplex stream.
@@ -163,6 +165,9 @@ func (c *memConn) LocalAddr() net.Addr  { return memAddr(c.name) }
 func (c *memConn) RemoteAddr() net.Addr { return memAddr(c.name + "-peer") }
 
 func (c *memConn) SetDeadline(t time.Time) error {
+	if c.onDeadline != nil {
+		t = c.onDeadline(t)
+	}
 	return c.SetReadDeadline(t)
 }
 
